@@ -5,6 +5,7 @@ import os
 import signal
 import sys
 from abc import ABC, abstractmethod
+from collections import deque
 from dataclasses import dataclass, field
 from enum import StrEnum, auto
 from itertools import count
@@ -126,6 +127,10 @@ class ProcessExecutor:
         self._running_id_to_future_and_process: dict[int, tuple[Future, multiprocessing.Process]] = {}
         # Use a Manager().Queue() to be able to share with subprocesses
         self._result_queue: Queue = multiprocessing.Manager().Queue(-1)
+        # Results taken off the result queue by consumer threads, to
+        # be applied to their futures by the thread that calls wait().
+        self._consumed_results: deque[tuple[int, Any]] = deque()
+        self._consumer_threads: list[Thread] = []
 
     def _start_processes(self):
         """Start processes for the oldest pending futures to bring
@@ -188,7 +193,7 @@ class ProcessExecutor:
             inner_timeout_seconds = timeout_seconds
             while True:
                 try:
-                    future_id, result_or_ex = self._result_queue.get(True, timeout=inner_timeout_seconds)
+                    self._consumed_results.append(self._result_queue.get(True, timeout=inner_timeout_seconds))
                 except Empty:
                     break
 
@@ -196,23 +201,45 @@ class ProcessExecutor:
                 # self._result_queue.get()
                 inner_timeout_seconds = 0
 
-                future, _ = self._running_id_to_future_and_process[future_id]
-                del self._running_id_to_future_and_process[future_id]
-                if not future.done:
-                    if isinstance(result_or_ex, BaseException):
-                        future.set_exception(result_or_ex)
-                    else:
-                        future.set_result(result_or_ex)
-
         # Consume the result queue in a thread so that it is not
         # interrupt by KeyboardInterrupt, which can result in us not
         # fully processing a completed result. Despite the fact we are
         # using subprocesses, starting a thread at this point should
         # be safe because we will not start any subprocesses while
         # this is running?
+        # A KeyboardInterrupt can still end our wait for the thread,
+        # which then keeps running while we are called again. So the
+        # thread only takes results off the queue, and the state of
+        # the executor is only ever changed by the calling thread.
+        earlier_consumer_threads = [thread for thread in self._consumer_threads if thread.is_alive()]
         consumer_thread = Thread(target=_consume)
+        self._consumer_threads = [*earlier_consumer_threads, consumer_thread]
         consumer_thread.start()
         consumer_thread.join()
+
+        while self._consumed_results:
+            # Only forget a result once it has been fully handled, so
+            # that a KeyboardInterrupt part-way through leaves it to
+            # be handled (again) by the next call.
+            future_id, result_or_ex = self._consumed_results[0]
+            # The future is no longer tracked if it was stopped
+            # after its result had been put onto the queue.
+            future_and_process = self._running_id_to_future_and_process.get(future_id)
+            if future_and_process is not None:
+                future, _ = future_and_process
+                if not future.done:
+                    if isinstance(result_or_ex, BaseException):
+                        future.set_exception(result_or_ex)
+                    else:
+                        future.set_result(result_or_ex)
+                self._running_id_to_future_and_process.pop(future_id, None)
+            self._consumed_results.popleft()
+
+        # An earlier consumer thread that is still running may be
+        # holding the result of a process that has finished, so leave
+        # dead processes to a later call.
+        if any(thread.is_alive() for thread in earlier_consumer_threads):
+            return
 
         # If any processes have died without the future being
         # cancelled or finished, then set an exception for it.
